@@ -27,6 +27,12 @@ def elem_type(f):
 
 def array_risk(f, p):
     t = T(f, p['t'])
+    if t.get('ptr') and not t.get('ref'):
+        # pointer to elements (`append(const T* p, int n)`): p may point into this array's own storage
+        et = elem_type(f)
+        s = T(f, t.get('to')).get('s', '')
+        s = s[6:] if s.startswith('const ') else s
+        return et is not None and s == et
     if not t.get('ref'):
         return False
     to = T(f, t.get('to'))
